@@ -151,8 +151,8 @@ func c16Workload(g *rand.Rand, port int, dur time.Duration) int {
 	pairR := func(c *Conn, r *rand.Rand) [][]string {
 		return [][]string{[][]string{{"GETBIT", "pb", fmt.Sprint(r.Intn(500))}, {"BITCOUNT", "pb"}, {"BITPOS", "pb", "1"}, {"BITPOS", "pb", "0", "2", "-1"}, {"BITFIELD", "pb", "GET", "u8", "16"},
 			{"BITFIELD_RO", "pb", "GET", "i16", "32"}, {"GET", "pb"}, {"GETRANGE", "ps", "0", "-1"}, {"STRLEN", "ps"}, {"LCS", "ps", "pb", "LEN"}, {"LRANGE", "pl", "0", "-1"}, {"LINDEX", "pl", "1"},
-			{"LPOS", "pl", "w"}, {"HGETALL", "ph"}, {"HGET", "ph", "f1"}, {"HVALS", "ph"}, {"SMEMBERS", "pz"}, {"SISMEMBER", "pz", "3"}, {"SINTER", "pz", "pz"}, {"SORT", "pz"}, {"SORT", "pl", "ALPHA"},
-			{"DUMP", "pb"}, {"TTL", "ps"}, {"TYPE", "pl"}, {"BITOP", "AND", "pb3", "pb", "pb2"}, {"COPY", "ph", "ph2", "REPLACE"}, {"GET", "pc"}}[r.Intn(27)]}
+			{"LPOS", "pl", "w"}, {"HGETALL", "ph"}, {"HGET", "ph", "f1"}, {"HVALS", "ph"}, {"HMGET", "ph", "f1", "n", "x"}, {"HKEYS", "ph"}, {"HRANDFIELD", "ph", "2"}, {"HSTRLEN", "ph", "f1"}, {"HSCAN", "ph", "0"}, {"SSCAN", "pz", "0"}, {"SRANDMEMBER", "pz", "2"}, {"SMISMEMBER", "pz", "1", "2"}, {"LINDEX", "pl", "-1"}, {"MGET", "ps", "pc", "pb"}, {"SMEMBERS", "pz"}, {"SISMEMBER", "pz", "3"}, {"SINTER", "pz", "pz"}, {"SORT", "pz"}, {"SORT", "pl", "ALPHA"},
+			{"DUMP", "pb"}, {"TTL", "ps"}, {"TYPE", "pl"}, {"BITOP", "AND", "pb3", "pb", "pb2"}, {"COPY", "ph", "ph2", "REPLACE"}, {"GET", "pc"}}[r.Intn(37)]}
 	}
 	fns := []func(c *Conn, r *rand.Rand) [][]string{data, data, data, intro, intro, sel, tx, tx, blocker, blocker, feeder, flusher, selmany, xwatch, sel, blocker2, blocker2, pairW, pairR, pairR, pairW}
 	for i, f := range fns {
